@@ -509,6 +509,48 @@ fn ttl_ns(d: Duration) -> u128 {
         d.as_nanos()
     }
 }
+/// Every way of reading through a lookup guard is exercised: even keys through `value()` and an
+/// implicit drop, keys = 1 mod 4 through `as_ref()` + `release()`, keys = 3 mod 4 through `read()`.
+fn read_guard(k: u64, r: stretto::ValueRef<'_, Val, FixedState>) -> (Val, Option<u128>) {
+    let t = Some(ttl_ns(r.ttl()));
+    match k % 4 {
+        1 => {
+            let v = *r.as_ref();
+            r.release();
+            (v, t)
+        }
+        3 => (r.read(), t),
+        _ => (*r.value(), t),
+    }
+}
+/// ... and every way of writing through a get_mut guard, by the sequence number of the new value:
+/// `write`, `*value_mut() =`, `write_once`, `write` + `release`; the old value is read through
+/// `value()`, `as_ref()` or `clone_inner()`.
+fn write_guard(mut r: stretto::ValueRefMut<'_, Val, FixedState>, nv: Val) -> (Val, Option<u128>) {
+    match nv.seq % 4 {
+        0 => {
+            let old = *r.value();
+            r.write(nv);
+            (old, None)
+        }
+        1 => {
+            let old = *r.as_ref();
+            *r.value_mut() = nv;
+            (old, None)
+        }
+        2 => {
+            let old = r.clone_inner();
+            r.write_once(nv);
+            (old, None)
+        }
+        _ => {
+            let old = *r.value();
+            r.write(nv);
+            r.release();
+            (old, None)
+        }
+    }
+}
 fn b<F: std::future::Future>(f: F) -> F::Output {
     shuttle::future::block_on(f)
 }
@@ -712,23 +754,15 @@ impl H {
     }
     pub fn get(&self, k: u64) -> Res {
         match self {
-            H::S(x) => Res::Val(x.get(&k).map(|r| (*r.value(), Some(ttl_ns(r.ttl()))))),
-            H::A(x) => Res::Val(b(x.get(&k)).map(|r| (*r.value(), Some(ttl_ns(r.ttl()))))),
+            H::S(x) => Res::Val(x.get(&k).map(|r| read_guard(k, r))),
+            H::A(x) => Res::Val(b(x.get(&k)).map(|r| read_guard(k, r))),
         }
     }
     /// get_mut, read the old value, write `nv`
     pub fn get_mut_write(&self, k: u64, nv: Val) -> Res {
         match self {
-            H::S(x) => Res::Val(x.get_mut(&k).map(|mut r| {
-                let old = *r.value();
-                r.write(nv);
-                (old, None)
-            })),
-            H::A(x) => Res::Val(b(x.get_mut(&k)).map(|mut r| {
-                let old = *r.value();
-                r.write(nv);
-                (old, None)
-            })),
+            H::S(x) => Res::Val(x.get_mut(&k).map(|r| write_guard(r, nv))),
+            H::A(x) => Res::Val(b(x.get_mut(&k)).map(|r| write_guard(r, nv))),
         }
     }
     pub fn get_ttl(&self, k: u64) -> Res {
